@@ -191,6 +191,8 @@ class Interp:
                 snap[name] = bool(obj)
             elif isinstance(obj, Tracked):
                 snap[name] = obj.value
+            elif isinstance(obj, (Resources, Capacities)):
+                snap[name] = dict(obj.levels)
         for name, task in self.ctx.tasks.items():
             snap['done:' + name] = bool(task.done)
         return snap
